@@ -128,6 +128,7 @@ func runBounds(c *Ctx, rule string, fns []*ssa.Function) int {
 			}
 			h := staticCallee(call)
 			ph := provers[h]
+			successFacts(pc, proverOf(h), h, call)
 			if h != nil && ph != nil && h.Signature.Results().Len() == 2 && isErrorType(h.Signature.Results().At(1).Type()) {
 				if st, isSt := h.Signature.Results().At(0).Type().Underlying().(*types.Struct); isSt {
 					structPost(pc, ph, fn, h, call, st)
@@ -1195,5 +1196,101 @@ func structPost(pc, ph *bprover, fn, h *ssa.Function, call *ssa.Call, st *types.
 				pc.global = append(pc.global, fact{pc.lenOf(call.Call.Args[pi], call.Block()).sub(atom), "post-condition: " + name + " <= len(" + par.Name() + ")"})
 			}
 		}
+	}
+}
+
+// successFacts: a helper H(…) (…, error) that turns its arguments away before it succeeds (`if len(input) <
+// pos+32 { return 0, errEOF }`): what its guards establish at every return with a nil error holds in the
+// caller wherever the error it handed back is known to be nil. Only facts over the helper's parameters (an
+// integer parameter, the length of a slice parameter) are carried over, written over the call's arguments.
+func successFacts(pc, ph *bprover, h *ssa.Function, call *ssa.Call) {
+	if pc == nil || ph == nil || h == nil || h.Blocks == nil || h == pc.fn {
+		return
+	}
+	nres := h.Signature.Results().Len()
+	if nres < 1 || !isErrorType(h.Signature.Results().At(nres-1).Type()) {
+		return
+	}
+	errV := extractOf(call, nres-1)
+	if errV == nil {
+		return
+	}
+	var succ []*ssa.Return
+	for _, r := range returnsOf(h) {
+		vals := returnValues(r)
+		if len(vals) != nres {
+			return
+		}
+		nilLeaf := false
+		for _, lf := range phiLeaves(vals[nres-1]) {
+			if isNilConst(lf.Val) {
+				nilLeaf = true
+			} else if !definitelyNonNilError(lf.Val, nil) {
+				nilLeaf = true // not known: may be nil
+			}
+		}
+		if nilLeaf {
+			succ = append(succ, r)
+		}
+	}
+	if len(succ) == 0 {
+		return
+	}
+	// the helper's atoms → the caller's terms
+	subst := map[string]lin{}
+	for i, par := range h.Params {
+		if i >= len(call.Call.Args) {
+			return
+		}
+		arg := call.Call.Args[i]
+		if isIntType(par.Type()) {
+			subst[ph.id(par)] = pc.val(arg, call.Block())
+		}
+		if _, isSl := par.Type().Underlying().(*types.Slice); isSl {
+			l := ph.lenOf(par, h.Blocks[0])
+			if len(l.t) == 1 && l.c == 0 {
+				for a, k := range l.t {
+					if k == 1 {
+						subst[a] = pc.lenOf(arg, call.Block())
+					}
+				}
+			}
+		}
+	}
+	translate := func(e lin) (lin, bool) {
+		out := konst(e.c)
+		for a, k := range e.t {
+			if k == 0 {
+				continue
+			}
+			t, ok := subst[a]
+			if !ok {
+				return lin{}, false
+			}
+			out = out.add(t.scale(k))
+		}
+		return out, true
+	}
+	for _, f := range ph.factsAt(succ[0].Block()) {
+		if len(f.e.t) == 0 {
+			continue
+		}
+		te, ok := translate(f.e)
+		if !ok {
+			continue
+		}
+		all := true
+		for _, r := range succ[1:] {
+			if !ph.prove(f.e, ph.factsAt(r.Block()), 0) {
+				all = false
+			}
+		}
+		if !all {
+			continue
+		}
+		if pc.succFacts == nil {
+			pc.succFacts = map[ssa.Value][]fact{}
+		}
+		pc.succFacts[errV] = append(pc.succFacts[errV], fact{te, "holds when " + fnName(h) + " succeeds: " + f.why})
 	}
 }
